@@ -443,6 +443,14 @@ def r3(ctx, chk):
         if isinstance(c, ast.Call) and ast.unparse(c.func).endswith("choose_best_split") and len(c.args) == 2 \
                 and all(isinstance(a, ast.Name) for a in c.args):
             outer = (c.args[0].id, c.args[1].id)
+            # the lists may be filled under another name and copied over (`possible_parsed = filled` after a written-out helper)
+            src = {}
+            for d in iter_own_nodes(pf.node):
+                if isinstance(d, ast.Assign) and len(d.targets) == 1 and isinstance(d.targets[0], ast.Name) and d.targets[0].id in outer \
+                        and isinstance(d.value, ast.Name):
+                    src.setdefault(d.targets[0].id, []).append(d.value.id)
+            if set(src) == set(outer) and all(len(v) == 1 for v in src.values()):
+                outer = (src[outer[0]][0], src[outer[1]][0])
             pairs.append(outer)
             inner = {}
             for d in iter_own_nodes(pf.node):
